@@ -89,11 +89,12 @@ func c14(c *Ctx) {
 	r := c.R
 	summaryAnnotation(c)
 	c14readers(c)
+	c14agg(c)
 	r.Decides("pod-level and container-level setters use the same extractor on the same list (Requests for shares, Limits for quota and memory), the same conversion, the same post-conversion adjustment (division by the scale ratio above 1, nothing else), the same response field and the same disabled-quota value")
 	r.Decides("every write of the response is dominated by the pod being BE and an extended resource spec being present")
 	r.Decides("the CPU normalization ratio read from the node is always handed to the rule, also when the annotation is gone (-1)")
 	r.Decides("the extended-resource-spec annotation the node agent reads is rewritten whenever it differs from the spec computed from the pod, using an equality that cannot call a superset equal")
-	r.Declines("the conversions themselves, 'pod no tighter than a container' numerically, rounding and minimum clamps")
+	r.Declines("the conversions' arithmetic, 'pod no tighter than a container' numerically, rounding")
 
 	r.Rule("SIBLING: for each pair SetPodX/SetContainerX (X in CPUShares, CFSQuota, MemoryLimit): equal extractor(list), conversion, post-conversion expression, response field, disabled value")
 	for _, x := range []string{"CPUShares", "CFSQuota", "MemoryLimit"} {
